@@ -33,10 +33,12 @@ RULE = ("cases derived from VERIF_SEED by tools/props/C09.py; distinct = distinc
 TRUSTED_BASE = [
     "harness/drv_sched.cpp + harness/vq_access.hpp (friend accessor, read-only dump of tasks/ord/ptr/col/val/D)",
     "modelling step: sweep()/solve() execute, between two barriers, exactly the rows of the dumped tasks (read off the C++ text); "
-    "OpenMP runtime (team size = omp_get_max_threads(), barrier semantics, memory model) is trusted",
+    "OpenMP runtime (barrier semantics, memory model) is trusted; stages S1-S5 run with a full team (team size = omp_get_max_threads()), "
+    "stage S6 forces smaller / larger teams and compares the team size the driver observes with the one asked for",
 ]
 ASSUMPTIONS = [
-    "omp parallel regions get exactly omp_get_max_threads() threads (omp_set_dynamic(0) in the harness)",
+    "S1-S5: omp parallel regions get exactly omp_get_max_threads() threads (omp_set_dynamic(0) in the harness); S6: teams of 1..3 (and 6..8) threads "
+    "with 4, 5 or 17 threads configured at set-up (omp_set_num_threads, host teams thread_limit, enclosing active region with nested parallelism off)",
     "data races are only excluded for the modelled regions (level schedules, row-parallel kernels, reductions)",
     "double runs: -ffp-contract=off; bitwise claims are tested across thread counts, not proved for floats",
 ]
